@@ -1129,7 +1129,8 @@ class Machine:
                     self.unexpected(h, op, val)
                 verdicts.append(False if st == "unsat" else bool(val))
             falses = any((not c.symbolic) and c.is_false() for p in parts for c in p.constraints)
-            if parts and all(verdicts) and not falses:
+            # (exact frontends only: an approximate one may call an unsatisfiable set satisfiable)
+            if parts and all(verdicts) and not falses and h.mode == "exact" and h.cls not in APPROX_CLASSES:
                 self.bad("split-parts-jointly-satisfiable", h, op, parts=len(parts))
         if h.ref.M or by_vars is not None:
             for p in parts:
